@@ -20,6 +20,10 @@
 //   setAxisAngle(axis(),angle()) = +-q  16 eps : atan2, length, normalise, sin/cos of a half angle <= pi with
 //                                     d(angle)/2 <= eps*pi -> ~8 eps, plus the norm defect of q
 //   Quat::setAxisAngle vs definition  4 eps ; Quat vs Matrix44 setAxisAngle 48 eps per entry (16.5 + 16 + 16 eps)
+// Added (audit2 S3): axes scaled by 2^k (float k = -70, -100, +60; double -540, -600, +500: squared length subnormal,
+// underflowing to zero, huge) in both setAxisAngle relations -- the rotation does not depend on the magnitude of the axis,
+// same tolerances (the scaling is exact). Added (audit2 S6): the axis-angle and near-axis families (angles up to pi-1e-15,
+// 2pi-1e-15) also rotate six vectors of magnitudes 1, 2^20, 2^-20 through the four entry points (32 eps |v|).
 #include "c10_common.hpp"
 #include <array>
 
@@ -29,12 +33,14 @@ using vf::R;
 
 struct Tally
 {
+    long long scaled_vec = 0, axis_scaled = 0;
     long long states = 0, trans = 0, w_neg = 0, w_zero = 0, w_pos = 0, near_minus1_skipped = 0, tiny_angle = 0, near_pi = 0, near_2pi = 0, log_theta0 = 0,
               generic_angle = 0;
     double w_rot = 0, w_mat = 0, w_prod = 0, w_explog = 0, w_aa = 0, w_qm = 0;
     void   merge (const Tally& o)
     {
         states += o.states; trans += o.trans; w_neg += o.w_neg; w_zero += o.w_zero; w_pos += o.w_pos; near_minus1_skipped += o.near_minus1_skipped;
+        scaled_vec += o.scaled_vec; axis_scaled += o.axis_scaled;
         tiny_angle += o.tiny_angle; near_pi += o.near_pi; near_2pi += o.near_2pi; log_theta0 += o.log_theta0; generic_angle += o.generic_angle;
         w_rot = std::max (w_rot, o.w_rot); w_mat = std::max (w_mat, o.w_mat); w_prod = std::max (w_prod, o.w_prod);
         w_explog = std::max (w_explog, o.w_explog); w_aa = std::max (w_aa, o.w_aa); w_qm = std::max (w_qm, o.w_qm);
@@ -95,6 +101,27 @@ template <class T> void single (Tally& tl, const Quat<T>& q, const std::string& 
         Q  xr = toQ (x), qn = qunit (qr);
         LD d  = std::min (qmaxdiff (xr, qn), qmaxdiff (xr, qscale (qn, -1)));
         if (!(d <= 64 * e)) R ().fail (site<T> ("extractQuat", "extractQuat(toMatrix44(q))=+-q"), in, "+-" + qs (qn) + " to 64 eps", qs (x));
+    }
+    if (!with_vectors)
+    {
+        static const LD VS[6][3] = {{1, 2, -2}, {-3, 0, 4}, {1048576.0L, -2097152.0L, 1048576.0L}, {0, 0, 3145728.0L}, {1 / 1048576.0L, 3 / 1048576.0L, -2 / 1048576.0L}, {-5 / 1048576.0L, 0, 0}};
+        for (auto& v : VS)
+        {
+            LD ev[3];
+            qrot (qr, v, ev);
+            LD      t = 32 * e * sqrtl (v[0] * v[0] + v[1] * v[1] + v[2] * v[2]);
+            Vec3<T> vv ((T) v[0], (T) v[1], (T) v[2]);
+            Vec3<T> r[4] = {q.rotateVector (vv), vv * q, vv * M3, vv * M4};
+            static const char* nm[4] = {"rotateVector=rotation-of-q.scaled-vector", "v*q=rotation-of-q.scaled-vector", "v*toMatrix33=rotation-of-q.scaled-vector", "v*toMatrix44=rotation-of-q.scaled-vector"};
+            tl.trans += 4; ++tl.scaled_vec;
+            for (int k = 0; k < 4; ++k)
+            {
+                LD d = std::max (fabsl ((LD) r[k].x - ev[0]), std::max (fabsl ((LD) r[k].y - ev[1]), fabsl ((LD) r[k].z - ev[2])));
+                if (!(d == d)) d = 1e30L;
+                mx (tl.w_rot, 32 * d / t);
+                if (!(d <= t)) R ().fail (site<T> ("Quat", nm[k]), in + " v=" + ld3 (v), ld3 (ev) + " to 32 eps|v|", v3 (r[k]));
+            }
+        }
     }
     if (with_vectors)
         for (int pi = 0; pi < 125; ++pi)
@@ -217,22 +244,34 @@ template <class T> void axis_angle_pairs (Tally& tl)
         angs.push_back ({(T) d, "1e-" + std::to_string (j), 1});
         angs.push_back ({(T) -d, "-1e-" + std::to_string (j), 1});
     }
-    std::vector<std::array<int, 3>> axes;
+    // axis = integer direction times 2^k (k = 0 for the unscaled alphabet)
+    std::vector<std::array<int, 4>> axes;
     for (int i = 0; i < 27; ++i)
     {
         int a[3];
         ex::decode ((uint64_t) i, 3, 3, a, -1);
-        if (a[0] || a[1] || a[2]) axes.push_back ({{a[0], a[1], a[2]}});
+        if (a[0] || a[1] || a[2]) axes.push_back ({{a[0], a[1], a[2], 0}});
     }
-    axes.push_back ({{2, 3, 5}});
-    axes.push_back ({{-7, 11, -13}});
-    axes.push_back ({{3, 0, -4}});
+    axes.push_back ({{2, 3, 5, 0}});
+    axes.push_back ({{-7, 11, -13, 0}});
+    axes.push_back ({{3, 0, -4, 0}});
+    {
+        const bool dbl = std::numeric_limits<T>::digits > 30;
+        for (int k : {dbl ? -540 : -70, dbl ? -600 : -100, dbl ? 500 : 60})
+        {
+            axes.push_back ({{1, -3, 2, k}});
+            axes.push_back ({{0, 1, 0, k}});
+            axes.push_back ({{-2, 0, 1, k}});
+        }
+    }
     for (auto& ax : axes)
         for (auto& g : angs)
         {
             (g.cls == 0 ? tl.generic_angle : g.cls == 1 ? tl.tiny_angle : g.cls == 2 ? tl.near_pi : tl.near_2pi)++;
-            const std::string in = "axis=(" + std::to_string (ax[0]) + "," + std::to_string (ax[1]) + "," + std::to_string (ax[2]) + ") angle=" + g.name + "=" + vf::fmt (g.a);
-            Vec3<T> av ((T) ax[0], (T) ax[1], (T) ax[2]);
+            if (ax[3]) ++tl.axis_scaled;
+            const std::string in = "axis=(" + std::to_string (ax[0]) + "," + std::to_string (ax[1]) + "," + std::to_string (ax[2]) + ")" + (ax[3] ? "*2^" + std::to_string (ax[3]) : std::string ()) + " angle=" + g.name + "=" + vf::fmt (g.a);
+            Vec3<T> av ((T) ldexpl ((LD) ax[0], ax[3]), (T) ldexpl ((LD) ax[1], ax[3]), (T) ldexpl ((LD) ax[2], ax[3]));
+            const char* asx = ax[3] ? ".axis-scaled-2^k" : "";
             Quat<T> q;
             q.setAxisAngle (av, g.a);
             ++tl.trans;
@@ -240,7 +279,8 @@ template <class T> void axis_angle_pairs (Tally& tl)
             LD n = sqrtl ((LD) (ax[0] * ax[0] + ax[1] * ax[1] + ax[2] * ax[2])), h = (LD) g.a / 2;
             Q  er{cosl (h), ax[0] / n * sinl (h), ax[1] / n * sinl (h), ax[2] / n * sinl (h)};
             LD d = qmaxdiff (toQ (q), er);
-            if (!(d <= 4 * e)) R ().fail (site<T> ("Quat", "setAxisAngle=(cos(a/2),axis^*sin(a/2))"), in, qs (er) + " to 4 eps", qs (q));
+            if (!qfinite (toQ (q))) d = 1e30L;
+            if (!(d <= 4 * e)) R ().fail (site<T> ("Quat", std::string ("setAxisAngle=(cos(a/2),axis^*sin(a/2))") + asx), in, qs (er) + " to 4 eps", qs (q));
             // Quat and Matrix44 describe the same rotation
             Matrix44<T> MA;
             MA.setAxisAngle (av, g.a);
@@ -250,8 +290,9 @@ template <class T> void axis_angle_pairs (Tally& tl)
             for (int i = 0; i < 4; ++i)
                 for (int j = 0; j < 4; ++j) w = std::max (w, fabsl ((LD) MA.x[i][j] - (LD) MQ.x[i][j]));
             mx (tl.w_qm, w / e);
-            if (!(w <= 48 * e)) R ().fail (site<T> ("Quat", "setAxisAngle.toMatrix44=Matrix44::setAxisAngle"), in, mat_str (MA.x) + " to 48 eps", mat_str (MQ.x));
-            single<T> (tl, q, "q=setAxisAngle(" + in + ")", false);
+            if (!(w == w)) w = 1e30L;
+            if (!(w <= 48 * e)) R ().fail (site<T> ("Quat", std::string ("setAxisAngle.toMatrix44=Matrix44::setAxisAngle") + asx), in, mat_str (MA.x) + " to 48 eps", mat_str (MQ.x));
+            if (qfinite (toQ (q))) single<T> (tl, q, "q=setAxisAngle(" + in + ")", false);
         }
 }
 
@@ -302,6 +343,8 @@ void run_unit ()
     R ().cls ("unit.w>0.generic", tl.w_pos);
     R ().cls ("explog.skipped-w-within-1e-3-of--1", tl.near_minus1_skipped);
     R ().cls ("log.theta=0-branch(w>=1)", tl.log_theta0);
+    R ().cls ("axis-angle.axis-scaled-2^k", tl.axis_scaled);
+    R ().cls ("rotate.scaled-vectors-on-axis-angle-and-near-axis-families", tl.scaled_vec);
     R ().cls ("axis-angle.tiny-angle", tl.tiny_angle);
     R ().cls ("axis-angle.near-pi", tl.near_pi);
     R ().cls ("axis-angle.near-2pi", tl.near_2pi);
@@ -314,7 +357,7 @@ void run_unit ()
     R ().note_max ("Quat vs Matrix44 setAxisAngle: worst entry in eps (bound 48)", tl.w_qm);
     R ().sample ("q=normalized(1,-2,0,2): exp(log q) == q to 8 eps(1+cond); setAxisAngle(axis(),angle()) == q");
     R ().stage_done (std::string ("624 normalised integer quaternions x {normalize, inverse, matrices, extractQuat, exp/log, axis/angle, 125 vectors x 4 rotation entry points}; products ") +
-                     (th ? "all 624^2" : "every 5th of 624^2") + "; 29 axes x 124 angles axis-angle pairs; near-axis family 7 real parts x 3 dominant axes x 2 signs x {0,+-10^-j}^2; float and double");
+                     (th ? "all 624^2" : "every 5th of 624^2") + "; 29 + 9 scaled (2^k) axes x 124 angles axis-angle pairs (+ 6 scaled vectors each); near-axis family 7 real parts x 3 dominant axes x 2 signs x {0,+-10^-j}^2; float and double");
 }
 
 } // namespace c10
